@@ -1,55 +1,24 @@
 //go:build verif
 
-package sumfile
+package inflector
 
-import "path/filepath"
-
-var _ = filepath.Join
+import "github.com/octohelm/gengo/pkg/inflector/internal"
 
 // Contracts checked by /verif/govc (see /verif/DESIGN.md). This file is compiled only with -tags verif.
 
-//@ func File.Sum
-//@   props C08
-//@   pure
-//@   requires f != nil
-//@   ensures has(f.Data, pkgPath) ==> result == f.Data[pkgPath]
-//@   ensures !has(f.Data, pkgPath) ==> result == ""
+//@ func Pluralize
+//@   props C20
+//@   requires internal.Spec_inflectorOK(internal.Defaults)
+//@   ensures result == internal.Defaults.Inflected(internal.Plural, s)
+//@   note (requires) the default inflector was populated by the package initialisation of internal (Register -> Init): assumed at this entry point
+//@   note the public entry point returns exactly what the rule dispatcher returns for the UNCHANGED input: no post-processing of the result that looks at the whole input (C20: a word is inflected the same way alone and behind a prefix)
 
-// spec_sumText(keys, data, n): the `path hash` lines of the first n keys, in order.
-func spec_sumText(keys []string, data map[string]string, n int) string {
-	if n <= 0 {
-		return ""
-	}
-	return spec_sumText(keys, data, n-1) + keys[n-1] + " " + data[keys[n-1]] + "\n"
-}
+//@ func Singularize
+//@   props C20
+//@   requires internal.Spec_inflectorOK(internal.Defaults)
+//@   ensures result == internal.Defaults.Inflected(internal.Singular, s)
 
-//@ func File.Bytes
-//@   props C08 C04
-//@   pure
-//@   requires f != nil
-//@   ensures string(result) == spec_sumText(spec_sortedKeys(f.Data), f.Data, len(f.Data))
-//@   loop 1 invariant b != nil && b.String() == spec_sumText(xs1, f.Data, it1)
-//@   note one `path hash` line per entry, keys ascending: a function of the map's contents only (order independence, C04)
-
-//@ func File.Save
-//@   props C02 C07 C08
-//@   requires f != nil
-//@   assigns nothing
-//@   effects
-//@   ensures eq(spec_calls(), old(spec_calls())) && spec_callMark() == old(spec_callMark())
-//@   ensures len(spec_fx()) >= len(old(spec_fx())) && len(spec_fx()) <= len(old(spec_fx()))+2 && eq(spec_fx()[:len(old(spec_fx()))], old(spec_fx()))
-//@   ensures forall i int :: len(old(spec_fx())) <= i && i < len(spec_fx()) ==> spec_fx()[i].Path == filepath.Join(f.Dir, sumFilename)
-//@   ensures forall i int :: len(old(spec_fx())) <= i && i < len(spec_fx()) ==> spec_fx()[i].Kind == spec_Open || spec_fx()[i].Kind == spec_Write
-//@   ensures len(spec_fx()) > len(old(spec_fx())) ==> spec_fx()[len(old(spec_fx()))].Kind == spec_Open
-//@   note gengo.sum is the only file Save touches: <Dir>/gengo.sum, TRUNCATED on open (no stale tail of a longer previous file survives), then written
-
-//@ func Load
-//@   props C08 C07 C02
-//@   pure
-//@   ensures (result1 == nil) == (result0 != nil)
-//@   ensures result0 != nil ==> fresh(result0) && result0.Dir == modRoot && result0.Data != nil
-//@   loop 1 invariant sum != nil && sum.Data != nil && sum.Dir == modRoot
-//@   note a gengo.sum that cannot be read yields (nil, err): the caller then has no previous sums and regenerates everything; lines with fewer than two fields are ignored
+var _ = internal.Plural
 
 // ---- govc prelude: ghost helpers of the clause language (identical in every contracts_verif.go) ----
 
